@@ -269,6 +269,10 @@ func CheckWakeups(w *World, skip func(probe string) bool) []Problem {
 			everMapped := everExisted(log, cutoff(mk), true)
 
 			for mid, last := range everMapped[mk] {
+				if id, byID := in.ID.Get(); byID && id != mid {
+					continue
+				}
+
 				mkey := gp.Key{NS: mk.NS, Type: mk.Type, ID: mid}
 				now := cur[mkey]
 
@@ -286,6 +290,22 @@ func CheckWakeups(w *World, skip func(probe string) bool) []Problem {
 
 					if lw == nil {
 						bad(name, "mapped-change-never-reached-primary", "queue controller %s: mapped %v (last %s) names primary %s which was never reconciled", name, mkey, Desc(last), pid)
+
+						continue
+					}
+
+					if in.ID.IsPresent() { // declared by ID: read by ID
+						rd := findRead(lw, mkey, false)
+						if rd == nil || rd.Err != "" {
+							bad(name, "probe-read-error", "reconcile of %v has no usable read of %v: %+v", pk, mkey, rd)
+
+							continue
+						}
+
+						if !Eq(rd.Val, now) {
+							bad(name, "mapped-change-never-reached-primary", "queue controller %s: primary %s last reconciled at %.1fms saw mapped %v (declared by ID) as %s, but it is %s (its mapper names %s)",
+								name, pid, lw.AtMS, mkey, Desc(rd.Val), Desc(now), pid)
+						}
 
 						continue
 					}
